@@ -274,7 +274,7 @@ fn run_pipeline(sink: &mut Sink, rng: &mut Rng, args: &Args, ndicts: usize, ntex
         }
         // lexicon: rows of the test lexicon with random in-range ids and costs
         let mut rows = vec![];
-        let mut surfaces = vec![];
+        let mut surfaces: Vec<String> = vec![];
         for line in lex.lines() {
             let mut f: Vec<String> = line.split(',').map(|s| s.to_string()).collect();
             if f.len() < 18 {
@@ -294,6 +294,31 @@ fn run_pipeline(sink: &mut Sink, rng: &mut Rng, args: &Args, ndicts: usize, ntex
             rows.push(f.join(","));
         }
         let lex_csv = rows.join("\n");
+        // in half of the dictionaries: a user dictionary on top (its words are candidates like any other;
+        // the lexicon is asked for the parameters of every dictionary node below)
+        let mut users: Vec<String> = vec![];
+        if rng.chance(1, 2) {
+            let ulex = std::fs::read_to_string(format!("{}/user1.csv", res)).unwrap_or_default();
+            let mut urows = vec![];
+            for line in ulex.lines() {
+                let mut f: Vec<String> = line.split(',').map(|s| s.to_string()).collect();
+                if f.len() < 18 {
+                    continue;
+                }
+                f[1] = format!("{}", rng.below(usize::min(nl, nr) as u64));
+                f[2] = format!("{}", rng.below(usize::min(nl, nr) as u64));
+                f[3] = format!("{}", rng.range(-3000, 9000));
+                for k in [14usize, 15, 16, 17] {
+                    f[k] = "*".into(); // no split / word-structure references (not the subject here)
+                }
+                if f.len() > 13 {
+                    f[13] = "*".into();
+                }
+                surfaces.push(f[0].clone());
+                urows.push(f.join(","));
+            }
+            users.push(urows.join("\n"));
+        }
         let dir = args.work.join(format!("res{}", d));
         let oov_l = rng.below(usize::min(nl, nr) as u64);
         let oov_r = rng.below(usize::min(nl, nr) as u64);
@@ -303,7 +328,7 @@ fn run_pipeline(sink: &mut Sink, rng: &mut Rng, args: &Args, ndicts: usize, ntex
             "oovProviderPlugin": [{"class": "com.worksap.nlp.sudachi.SimpleOovPlugin",
                 "oovPOS": ["名詞", "普通名詞", "一般", "*", "*", "*"], "leftId": oov_l, "rightId": oov_r, "cost": rng.range(-2000, 20000)}],
         });
-        let dict = match build_dictionary(&dir, &res, &matrix, &lex_csv, &[], &cfg) {
+        let dict = match build_dictionary(&dir, &res, &matrix, &lex_csv, &users, &cfg) {
             Ok(d) => d,
             Err(e) => {
                 let id = sink.case_rust_only(json!({"kind": "pipeline-dict", "matrix": matrix, "lex": lex_csv, "error": e}), false);
